@@ -4,11 +4,17 @@ import (
 	"errors"
 	"fmt"
 	"net"
+	"strings"
 )
 
 var ErrInvalidAddr = errors.New("invalid IP subnet/host")
 
 func ParseIPNet(subnet string) (*net.IPNet, error) {
+	// only IPv4 hosts and subnets are supported: refuse every IPv6 form
+	// (including IPv4-mapped ones) instead of reinterpreting it as IPv4
+	if strings.Contains(subnet, ":") {
+		return nil, ErrInvalidAddr
+	}
 	_, result, err := net.ParseCIDR(subnet)
 	if err == nil {
 		return result, err
